@@ -116,7 +116,7 @@ def run_class(col, modname, clsname, lagrange):
         el = it.call(cls, [], dict(bubble_multiplier=bm) if bubble else {})
         label = clsname
         space, degree = COMPLETENESS.get(clsname, (None, None))
-    points = npmodel.to_obj(it.getattr(el, "points"))
+    points = npmodel.to_obj(it.getattr(el, "points")).copy()
     dim = points.shape[1]
     X = [sym(n) for n in "rst"[:dim]]
     rst = np.empty(dim, dtype=object)
@@ -218,6 +218,22 @@ def run_class(col, modname, clsname, lagrange):
         # bubble multiplier must scale the bubble (and only it)
         dep = [a for a in range(nn) if "bubble_multiplier" in str(h[a])]
         col.add("C04.O6", "%s multiplier" % label, "bubble multiplier appears in the bubble function only", not dep and "bubble_multiplier" in str(b), str(dep))
+    # O8 the methods are queries: an array returned earlier is not altered by a later evaluation (Region collects one result per quadrature
+    # point before it uses any of them), and the element's nodes are not altered
+    rst2 = np.empty(dim, dtype=object)
+    for i in range(dim):
+        rst2[i] = sym("rst"[i] + "_2")
+    for meth in ("function", "gradient") + (("hessian",) if has_h else ()):
+        first = it.call_method(el, meth, [rst])
+        keep = npmodel.to_obj(np.asarray(first)).copy()
+        it.call_method(el, meth, [rst2])
+        now = npmodel.to_obj(np.asarray(first))
+        okk = now.shape == keep.shape and all(is_zero(P(a) - P(b)) for a, b in zip(now.reshape(-1), keep.reshape(-1)))
+        col.add("C04.O8", "%s.%s result is the caller's own" % (label, meth), "the array returned for one point is not altered by evaluating another point (no shared output buffer)", okk,
+                "%s: the first result changed after the second call" % method_where(cls, meth))
+    pts_now = npmodel.to_obj(it.getattr(el, "points"))
+    col.add("C04.O8", "%s.points untouched" % label, "evaluating the element does not alter its node coordinates",
+            pts_now.shape == points.shape and all(is_zero(P(a) - P(b)) for a, b in zip(pts_now.reshape(-1), points.reshape(-1))), nontrivial=False)
     finish_info(col, it)
 
 
